@@ -742,16 +742,17 @@ func main() {
 			}
 		}
 	})
-	w := lib.NewWriter(args, "C17", "c17", "From KB Require Import Model.C17Cases.\n"+tab.Header(), "c17_case", "c17_check", "c17_oracle", 40)
+	w := lib.NewWriter(args, "C17", "c17", "From KB Require Import Model.C17Cases Model.C17Valid.\n"+tab.Header(), "c17_case", "c17_check_v", "c17_oracle", 40)
 	skipped := 0
 	for i, o := range outs {
 		switch {
 		case o.fail != "":
 			w.Fail(lib.ImplFailure{CaseID: i, What: o.fail})
-			w.Add(lib.Case{Kind: o.kind + "/failed", Coq: "(KTtlChoice [] 0 [] [0])", JSON: o.fail, Trivial: true})
+			// a scenario that failed in the harness: reported as an implementation failure; its placeholder does not pass the check
+			w.Add(lib.Case{Kind: o.kind + "/failed", Coq: "(KTtlChoice [] 0 [] [])", JSON: o.fail, Trivial: true})
 		case o.skipped != "":
 			skipped++
-			w.Add(lib.Case{Kind: o.kind + "/indeterminate-skipped", Coq: "(KTtlChoice [] 0 [] [0])", JSON: o.skipped, Trivial: true, Outcomes: []string{"indeterminate-skipped"}})
+			w.Add(lib.Case{Kind: o.kind + "/indeterminate-skipped", Coq: "KSkipped", JSON: o.skipped, Trivial: true, Outcomes: []string{"indeterminate-skipped"}})
 		default:
 			w.Add(lib.Case{Kind: o.kind, Coq: o.coq, JSON: o.json, Trivial: o.trivial, Outcomes: o.outcomes})
 		}
